@@ -536,10 +536,15 @@ def main(mod):
     mutants = None
     if a.tier == "thorough" and exit_code == 0 and hasattr(mod, "MUTANTS") \
             and os.environ.get("VERIF_SKIP_MUTANTS") != "1":
-        mutants = run_mutants(mod, a.tier, base_seed)
-        surv = [n for n, r in mutants.items() if not r["killed"]]
-        if surv:
-            print("HARNESS-WARNING: mutants not caught: %s" % surv)
+        try:
+            mutants = run_mutants(mod, "quick", base_seed)
+            surv = [n for n, r in mutants.items() if not r["killed"]]
+            if surv:
+                print("HARNESS-WARNING: mutants not caught: %s" % surv)
+        except Exception as e:
+            # a stale mutant anchor must not turn a clean property run into a failure
+            print("HARNESS-WARNING: sensitivity self-test could not run: %r" % (e,))
+            mutants = {"error": repr(e)[:300]}
     wall_s = time.time() - t0
     if not a.no_evidence:
         p = write_evidence(mod, a.tier, base_seed, total, cfg, wall_s, nviol, known_printed,
